@@ -41,7 +41,14 @@ def s_to_fixed(ex, st, args, m):
             exact = q
     elif isinstance(v, F64):
         # round to nearest (ties to even not modelled: |p - x*2^f| <= 1/2)
+        if not hasattr(ex.ctx, "fxconv"):
+            ex.ctx.fxconv = {}
+        key = (v.term, dfrac)
+        if key in ex.ctx.fxconv:
+            p = ex.ctx.fxconv[key]
+            return fork_overflow(ex, st, p, dsg, dbits, "to_fixed out of range of the target type", lambda t: Fx(t, dsg, dbits, dfrac))
         p = ex.ctx.fresh("fx")
+        ex.ctx.fxconv[key] = p
         ex.ctx.defs.append("(and (<= (- (* 2.0 (* %s %d.0)) 1.0) (* 2.0 (to_real %s))) (<= (* 2.0 (to_real %s)) (+ (* 2.0 (* %s %d.0)) 1.0)))"
                            % (v.term, 1 << dfrac, p, p, v.term, 1 << dfrac))
         exact = p
